@@ -1861,14 +1861,20 @@ impl Index<usize> for Vec3A {
     type Output = f32;
     #[inline]
     fn index(&self, index: usize) -> &Self::Output {
-        &self.0[index]
+        match index {
+            0..=2 => &self.0[index],
+            _ => panic!("index out of bounds"),
+        }
     }
 }
 
 impl IndexMut<usize> for Vec3A {
     #[inline]
     fn index_mut(&mut self, index: usize) -> &mut Self::Output {
-        &mut self.0[index]
+        match index {
+            0..=2 => &mut self.0[index],
+            _ => panic!("index out of bounds"),
+        }
     }
 }
 
